@@ -486,7 +486,7 @@ class SymInFile:
             r = self.data[self.pos:]
         else:
             r = self.data[self.pos: self.pos + n]
-        self.pos += len(r)
+        self.pos = self.pos + s_len(r)
         return r
 
     def peek(self, n=0):
